@@ -98,6 +98,18 @@ Section Ids.
     destruct (Hw _ _ _ _ Hs eq_refl) as [Z1 Z2]; [unfold lifted0; rewrite Hl0; exact Hl|]. split; [simpl; exact Z1 | exact Z2].
   Qed.
 
+  (* the repaired placement of a continuation under binders (fix <commitcap>): < mu a. w(a) | cont > *)
+  Lemma z_guard : forall binders (w : cterm -> M cstmt) lty,
+    (forall cont st0 s st0', w cont st0 = Ok (s, st0') -> zt cont -> lifted0 st0 -> zs s /\ lifted0 st0') ->
+    forall cont st s st', guard_capture false binders w lty cont st = Ok (s, st') -> zt cont -> lifted0 st -> zs s /\ lifted0 st'.
+  Proof.
+    intros binders w lty Hw cont st s st' H Hk Hl. apply guard_capture_inv in H.
+    destruct H as [[_ H]|[_ [ty0 [a [sta [s0 [_ [Ha [_ [H ->]]]]]]]]]]; [eapply Hw; eauto|].
+    destruct (fresh_in_vars_inv _ _ _ _ Ha) as [_ [_ [_ Hl0]]].
+    destruct (Hw _ _ _ _ H eq_refl) as [Z1 Z2]; [unfold lifted0; rewrite Hl0; exact Hl|].
+    split; [simpl; rewrite Z1, Hk; reflexivity | exact Z2].
+  Qed.
+
   Lemma z_args : forall args, Forall ZC args -> forall st l st', subst_with (fun y => cmp' y) args st = Ok (l, st') ->
     lifted0 st -> forallb (ids_le_arg 0) l = true /\ lifted0 st'.
   Proof.
@@ -173,7 +185,8 @@ Section Ids.
       intros cont st0 s0 st0' Hs. eapply HW. rewrite wc_unfold. exact Hs.
     - destruct IHt1 as [W1 C1], IHt2 as [W2 _].
       assert (HW : ZW (FLet v vty t1 t2 ty)).
-      { intros cont st s0 st' H0 Hk Hl. rewrite wc_unfold in H0.
+      { intros cont st s0 st' H0 Hk Hl. rewrite wc_unfold in H0. revert cont st s0 st' H0 Hk Hl. apply z_guard.
+        intros cont st s0 st' H0 Hk Hl.
         destruct (ty_is_codata cdt (compile_ty vty)) eqn:Hcd.
         - apply wc_let_inv_codata in H0; [|exact Hcd]. destruct H0 as [body [st1 [pb [Hb [Hp ->]]]]].
           destruct (W2 _ _ _ _ Hb Hk Hl) as [B1 B2]. destruct (C1 _ _ _ _ Hp B2) as [P1 P2]. simpl. rewrite P1, B1. auto.
@@ -207,7 +220,8 @@ Section Ids.
     - destruct IHt as [Ws _].
       assert (HB : Forall (fun c => ZW (clause_body c)) cls) by (eapply Forall_impl; [|exact H]; intros a [Wa _]; exact Wa).
       assert (HW : ZW (FCase t targs cls ty)).
-      { intros cont st s0 st' H0 Hk Hl. rewrite wc_unfold in H0. apply wc_case_inv in H0.
+      { intros cont st s0 st' H0 Hk Hl. rewrite wc_unfold in H0. revert cont st s0 st' H0 Hk Hl. apply z_guard.
+        intros cont st s0 st' H0 Hk Hl. apply wc_case_inv in H0.
         destruct H0 as [cont1 [st0 [cls' [st1 [sty0 [Hsh [Hcls [_ Hscrut]]]]]]]].
         assert (Hc1 : zt cont1 /\ lifted0 st0).
         { destruct (Nat.leb (List.length cls) 1 || cont_is_small cont); [destruct Hsh as [-> ->]; auto | eapply share0; eauto]. }
